@@ -17,8 +17,9 @@ REQUIRED_HOOKS = [
     # input classes that must have been visited
     "ivp-data:int-list", "ivp-data:int-tuple", "ivp-data:int64-array", "ivp-data:int32-array", "ivp-data:mixed-list", "bvp-data:int", "bvp-data:mixed",
     "interval-ends:python-int", "interval:far-out", "slope:tiny", "slope:huge", "equation-scaled:small", "equation-scaled:large",
+    "purity-protocol", "bvp-max_nodes:default", "bvp-max_nodes:mesh+few", "bvp-max_nodes:1.05x-mesh", "bvp-max_nodes:1.2x-mesh",
 ]
-REQUIRED_FAMILIES = ["ivp-o1", "ivp-o2", "ivp-o3", "bvp-o1", "bvp-o2", "bvp-o3", "ivp-pyfloat-span"]
+REQUIRED_FAMILIES = ["ivp-o1", "ivp-o2", "ivp-o3", "bvp-o1", "bvp-o2", "bvp-o3", "ivp-pyfloat-span", "purity-ivp", "purity-bvp", "bvp-mesh-budget"]
 BUDGET = {"quick": 900, "thorough": 9000}
 MAX_DISCARD_FRACTION = 0.05
 RULE = (
@@ -42,7 +43,17 @@ RULE = (
     "intervals up to x = 2000 for the [0,inf) maps (15 %); prescribed data in INTEGER form - the manufactured solution gets a "
     "polynomial correction that makes y(x0), y'(x0), y''(x0) (BVP: the boundary values) integers, handed over as list of Python "
     "ints, tuple, int64 / int32 ndarray or mixed int/float list (50 % of the IVPs), BVP values as ints or mixed (50 %); interval "
-    "ends as Python ints, x_span=(1, 3), and an integer ndarray as BVP mesh (25 % of the [0,inf) cases)."
+    "ends as Python ints, x_span=(1, 3), and an integer ndarray as BVP mesh (25 % of the [0,inf) cases). "
+    "Family purity-ivp / purity-bvp (every transform, orders 2-3 and some order 1 in quick, all orders x 4 problems in thorough): the "
+    "returned callables of the case (direct and transformed) and the transformed callable of a SECOND manufactured problem are "
+    "evaluated interleaved; one callable receives > 2200 distinct points in 60-150 calls of varying size (1-element arrays, 2-11, "
+    "30-200, 300-900 points, sorted and unsorted), then the six earliest point sets and six later ones are evaluated again (same "
+    "arrays: bit-identical results required) and the union of the earliest sets re-grouped in one reversed array (equal to 1e-9 x "
+    "scale); every evaluation is compared with the manufactured solution. "
+    "Family bvp-mesh-budget (every increasing transform x three mesh-size classes): non-uniform initial meshes of 200-5000 nodes "
+    "(random spacing ratios up to 3, or graded), max_nodes = default / mesh+1..9 / 1.05 x mesh / 1.2 x mesh, a solution term "
+    "cl*exp((x-b)/dl) that varies rapidly towards the right end and a Dirichlet condition there, evaluation at both ends and at 6+6 "
+    "points within six mesh spacings of them; decided by the same accuracy / conditions-met clauses, direct and transformed."
 )
 ASSUMPTIONS = [
     "admissible = order <= 3, leading coefficient >= 0.5, interval strictly inside the transform's domain, increasing map for BVP (solve_bvp needs an increasing mesh), HyperbolicRTransform with b*(number of points-1) < 1 for every array it sees, slope of the map varying by at most a factor 50 over the interval (beyond that SciPy's adaptive error estimates are unreliable next to the branch point of the transformed equation: DOP853 error 0.04 at tol 1e-6 was measured at slope ratio 1700 - a property of the integrator, not of grid)",
@@ -104,6 +115,31 @@ def cases(tier, seed):
         for label, cls in TRANSFORMS:
             for order in (1, 2):
                 out.append(("ivp-pyfloat-span", {"method": "RK45", "tol": 1e-6, "tf": label, "order": order, "rep": rep}, 1e9 if (rep == 0 and label in PYFLOAT_NEEDS_SIZE) else 1.0))
+    # purity of the returned callable: > 2000 distinct points in many calls of varying sizes, interleaved with a second
+    # solution, then re-evaluation of the earliest point sets (expensive: ~1-2 s per case)
+    for rep in range(1 if tier == "quick" else 4):
+        for i, (label, cls) in enumerate(TRANSFORMS):
+            for kind in ("ivp", "bvp"):
+                if kind == "bvp" and label in DECREASING:
+                    continue
+                if tier == "quick" and label not in DECREASING and kind != ("ivp", "bvp")[(i + seed) % 2]:
+                    continue  # quick: one kind per transform, alternating with the seed
+                orders = (1, 2, 3) if tier == "thorough" else ((2 + (i + seed + (kind == "bvp")) % 2,) + ((1,) if i % 6 == 0 else ()))
+                for order in orders:
+                    prm = {"order": order, "tol": 1e-6, "tf": label, "rep": rep}
+                    if kind == "ivp":
+                        prm["method"] = METHODS[(i + order + rep) % len(METHODS)]
+                    out.append((f"purity-{kind}", prm, 40.0 * order))
+    # BVP meshes that are large relative to max_nodes (200 ... 5000 nodes, max_nodes from just above the mesh size to 1.2 x
+    # and the default), non-uniform, a boundary condition at the right end that matters
+    for rep in range(1 if tier == "quick" else 12):
+        for i, (label, cls) in enumerate(TRANSFORMS):
+            if label in DECREASING:
+                continue
+            for j, nodes in enumerate(("200-700", "700-2500", "2500-5000")):
+                order = 1 + (i + j + rep + seed) % 3
+                tol = (3e-5, 3e-6, 1e-6)[j] if (i + rep) % 2 else (1e-5, 1e-6, 1e-7)[j]  # what such a mesh resolves without refinement
+                out.append(("bvp-mesh-budget", {"order": order, "tol": tol, "tf": label, "nodes": nodes, "rep": rep}, 6.0 * (j + 1)))
     return out
 
 
@@ -119,7 +155,7 @@ def _log_uniform(rng, lo, hi):
     return float(10.0 ** rng.uniform(np.log10(lo), np.log10(hi)))
 
 
-def build_transform(label, rng, kind, a, b, slope_class="moderate"):
+def build_transform(label, rng, kind, a, b, slope_class="moderate", nodes_bound=0):
     """Real transform object with seeded admissible parameters for the x-interval [a, b]; returns (tf, description).
 
     slope_class "moderate": in 70 % of the cases the scale parameter is chosen so that the mean slope |r(b)-r(a)|/(b-a) of the
@@ -208,7 +244,7 @@ def build_transform(label, rng, kind, a, b, slope_class="moderate"):
         # BVP sees the whole adaptive mesh (bounded by max_nodes = BVP_NODES_HYPERBOLIC); the pole 1/b stays beyond 8x the interval
         bb = float(rng.uniform(0.03, 0.12)) / far
         if kind == "bvp":
-            bb = min(bb, float(rng.uniform(0.5, 0.9)) / BVP_NODES_HYPERBOLIC)
+            bb = min(bb, float(rng.uniform(0.5, 0.9)) / max(BVP_NODES_HYPERBOLIC, nodes_bound))
         tf, d = rt.HyperbolicRTransform(aa, bb), {"a": aa, "b": bb}
     else:
         raise ValueError(label)
@@ -309,8 +345,10 @@ def run_case(ctx, family, params):
     rng = ctx.rng
     np.random.seed(int(rng.integers(0, 2**32 - 1)))  # solve_ode_bvp draws its default initial guess from the global RNG
     pyfloat = family == "ivp-pyfloat-span"
-    kind = family[:3]
-    order = int(params["order"]) if pyfloat else int(family[-1])
+    purity = family.startswith("purity-")
+    budget = family == "bvp-mesh-budget"
+    kind = family[7:10] if purity else family[:3]
+    order = int(params["order"]) if "order" in params else int(family[-1])
     tol, label, method = float(params["tol"]), params["tf"], params.get("method")
     cls = dict(TRANSFORMS)[label]
     short = kind == "bvp" and order == 3
@@ -318,7 +356,7 @@ def run_case(ctx, family, params):
     u = rng.random()
     slope_class = "tiny" if u < 0.10 else ("huge" if u < 0.16 else "moderate")  # magnitude of the slope g' of the map
     far_out = bool(cls == "B" and rng.random() < 0.15)  # interval far from the origin (up to 2000) for the [0, inf) maps
-    int_ends = bool(cls == "B" and not far_out and not pyfloat and rng.random() < 0.25)  # interval ends are Python ints
+    int_ends = bool(cls == "B" and not far_out and not pyfloat and not budget and rng.random() < 0.25)  # interval ends are Python ints
     u = rng.random()  # the same equation multiplied by a common factor (solution unchanged)
     lam = _log_uniform(rng, 1e-18, 1e-6) if u < 0.20 else (_log_uniform(rng, 1e6, 1e12) if u < 0.30 else 1.0)
     if kind == "ivp":
@@ -332,6 +370,13 @@ def run_case(ctx, family, params):
     # (ii) it is invertible in floating point: positions are recovered from r to within eps*|r|/|g'|, required <= 2e-10
     #     (saturating maps far out: r = 1 - 1e-9 carries no information about x).
     L0 = float(rng.uniform(0.5, 1.0)) if short else float(rng.uniform(0.6, 1.8 if cls == "A" else 2.5))
+    n_mesh, max_nodes = None, 5000
+    if budget:
+        lo_n, hi_n = (int(v) for v in params["nodes"].split("-"))
+        n_mesh = int(_log_uniform(rng, lo_n, hi_n))
+        choice = int(rng.integers(0, 4))
+        max_nodes = (5000, n_mesh + int(rng.integers(1, 10)), int(1.05 * n_mesh) + 1, int(1.2 * n_mesh) + 1)[choice]
+        ctx.hit("bvp-max_nodes:" + ("default", "mesh+few", "1.05x-mesh", "1.2x-mesh")[choice])
     for attempt in range(60):
         L = max(0.25, L0 * 0.9**attempt)
         if int_ends:
@@ -343,7 +388,7 @@ def run_case(ctx, family, params):
             lo, hi = (-0.9, 0.9) if cls == "A" else (0.1, 6.0)
             a = float(rng.uniform(lo, hi - L))
         b = a + L
-        tf, tfdesc = build_transform(label, rng, kind, float(a), float(b), slope_class)
+        tf, tfdesc = build_transform(label, rng, kind, float(a), float(b), slope_class, nodes_bound=max(max_nodes, n_mesh or 0))
         with np.errstate(all="ignore"):
             g1 = np.array([ode_ref.map_derivs(tf, x, nmax=1)[0] for x in np.linspace(a, b, 9)])
             rends = np.abs(np.asarray(tf.transform(np.array([float(a), float(b)])), dtype=float))
@@ -359,6 +404,8 @@ def run_case(ctx, family, params):
     mode = str(rng.choice(["callable", "callable", "mixed", "const"]))
     pr = ode_ref.random_problem(rng, order, xc=0.5 * (a + b), kind=kind, constant=(mode == "const"))
     pr.lam = lam
+    if budget:  # a term that varies rapidly towards the right end, so that WHERE the right-end condition is imposed matters
+        pr.sol.update({"cl": float(rng.choice([-1.0, 1.0]) * rng.uniform(0.4, 1.0)), "dl": float(rng.uniform(0.15, 0.4)) * (b - a) / 1.5, "xb": float(b)})
     if mode == "const":
         mode = str(rng.choice(["array", "list", "mixed", "callable"]))
     backward = bool(kind == "ivp" and rng.random() < 0.25)
@@ -366,6 +413,8 @@ def run_case(ctx, family, params):
     # values integers (f follows), so that they can be handed over as Python ints / integer arrays
     if kind == "ivp":
         spec = [(1 if backward else 0, k) for k in range(order)]
+    elif budget:
+        spec = {1: [(1, 0)], 2: [(0, 0), (1, 0)], 3: [(0, 0), (0, 1), (1, 0)]}[order][:: (1 if rng.random() < 0.5 else -1)]
     else:
         spec = _bvp_spec(rng, order)
     int_values = None
@@ -385,6 +434,10 @@ def run_case(ctx, family, params):
     ctx.count(f"coeff_mode:{mode}")
 
     xs = np.concatenate(([float(a), float(b)], np.sort(rng.uniform(a, b, NPTS - 2))))
+    if budget:  # 6 + 6 of the interior points within a few mesh spacings of the two ends
+        hh = (b - a) / n_mesh
+        xs[2:8] = np.sort(a + hh * rng.uniform(0.0, 6.0, 6))
+        xs[-6:] = np.sort(b - hh * rng.uniform(0.0, 6.0, 6))
     exact = pr.exact(xs)  # (K, N)
 
     # derivatives of the implemented map from its forward map only (never tf.deriv*)
@@ -414,7 +467,7 @@ def run_case(ctx, family, params):
             span = (np.float64(x0), np.float64(x1)) if np_span else (float(x0), float(x1))
             if int_ends:
                 span = (int(x0), int(x1))  # the documented "(int, int)"
-            nod = bool(order >= 2 and rng.random() < 0.15)
+            nod = bool(order >= 2 and rng.random() < 0.15) and not purity
             kw = {"method": method, "rtol": tol, "atol": tol}
             sol_d = _call(ctx, esubj + ":direct", gode.solve_ode_ivp, span, pr.fx_callback(), pr.coeff_arg(mode), y0_arg, **kw)
             sol_t = _call(ctx, esubj, gode.solve_ode_ivp, span, pr.fx_callback(), pr.coeff_arg(mode), y0_arg, tf, no_derivatives=nod, **kw)
@@ -429,9 +482,17 @@ def run_case(ctx, family, params):
             if int_ends and b - a >= 2 and rng.random() < 0.5:
                 mesh = np.arange(a, b + 1)  # integer ndarray as initial mesh
                 n0 = mesh.size
+            if budget:  # large non-uniform mesh: random spacings (ratio up to 3) or graded towards one end
+                n0 = n_mesh
+                inc = rng.uniform(1.0, 3.0, n0 - 1) if rng.random() < 0.5 else np.linspace(1.0, float(rng.uniform(0.3, 3.0)), n0 - 1)
+                mesh = a + (b - a) * np.concatenate(([0.0], np.cumsum(inc))) / float(np.sum(inc))
+                mesh[-1] = b
+                ctx.case_note("mesh", {"nodes": n0, "max_nodes": max_nodes})
             guess = None if rng.random() < 0.6 else np.zeros((order, n0))
-            nod = bool(order >= 2 and rng.random() < 0.15)
-            kw = {"tol": tol, "max_nodes": BVP_NODES_HYPERBOLIC if label == "Hyperbolic" else 5000, "initial_guess_y": guess}
+            nod = bool(order >= 2 and rng.random() < 0.15) and not purity
+            kw = {"tol": tol, "max_nodes": max_nodes if budget else (BVP_NODES_HYPERBOLIC if label == "Hyperbolic" else 5000), "initial_guess_y": guess}
+            if budget and max_nodes == 5000 and label != "Hyperbolic" and rng.random() < 0.5:
+                del kw["max_nodes"]  # the default of solve_ode_bvp
             sol_d = _call(ctx, esubj + ":direct", gode.solve_ode_bvp, mesh.copy(), pr.fx_callback(), pr.coeff_arg(mode), bd_direct, **kw)
             if nod:  # the default of solve_ode_bvp
                 sol_t = _call(ctx, esubj, gode.solve_ode_bvp, mesh.copy(), pr.fx_callback(), pr.coeff_arg(mode), bd_tf, tf, **kw)
@@ -544,9 +605,133 @@ def run_case(ctx, family, params):
                 err = float(np.max(np.abs(y2[k] - exact2[k])))
                 ctx.check(f"{kind}-returned-callable-second-point-set", subject, err / (tol * scale2[k]), ACC_FACTOR[kind], sig=f"order{order}:d{k}", detail={"err": err, "scale": scale2[k], **info})
             ctx.hit("returned-callable:second-point-set")
+    if purity and yt is not _MISSING and yd is not _MISSING:
+        _purity_protocol(ctx, gode, kind, label, subject, esubj, order, tol, method, tf, tfdesc, pr, mode, a, b, spec, g_end, backward, sol_t, sol_d, scale_t, scale_d, rng, info)
 
 
 COND_FACTOR = 10.0
+
+
+PURITY_POINTS = 2200  # distinct points handed to ONE returned callable before the earliest sets are evaluated again
+
+
+def _purity_protocol(ctx, gode, kind, label, subject, esubj, order, tol, method, tf, tfdesc, prA, mode, a, b, spec, g_end, backward, solA_t, solA_d, scale_t, scale_d, rng, info):
+    """The value of a returned callable depends only on the points it is given.
+
+    Solution A (direct and transformed callables of this case) and a second, different manufactured problem B on the same
+    interval/transform are evaluated interleaved: more than PURITY_POINTS distinct points go to A's callables in calls of
+    varying sizes (1-element arrays, small, medium and big arrays, sorted and unsorted); then the earliest point sets, a sample
+    of the later ones and a re-grouped/reversed union of the earliest sets are evaluated again.  Re-evaluating the SAME array
+    must return bit-identical values; every evaluation must agree with the manufactured solution."""
+    a, b = float(a), float(b)
+    # ---- solution B
+    prB = ode_ref.random_problem(rng, order, xc=0.5 * (a + b), kind=kind, constant=False)
+    ends = np.array([a, b])
+    exB = prB.exact(ends)
+    try:
+        if kind == "ivp":
+            i0 = 1 if backward else 0
+            span = (float(ends[i0]), float(ends[1 - i0]))
+            y0B = [float(v) for v in exB[:, i0]]
+            solB_t = _call(ctx, esubj + ":second-solution", gode.solve_ode_ivp, span, prB.fx_callback(), prB.coeff_arg("callable"), y0B, tf, method=method, rtol=tol, atol=tol)
+        else:
+            _, _, bdB = _bvp_conditions(rng, spec, exB, g_end, "float", None)
+            solB_t = _call(ctx, esubj + ":second-solution", gode.solve_ode_bvp, np.linspace(a, b, 15), prB.fx_callback(), prB.coeff_arg("callable"), bdB, tf, tol=tol, no_derivatives=False,
+                           max_nodes=BVP_NODES_HYPERBOLIC if label == "Hyperbolic" else 5000)
+    except _NoConvergence:
+        solB_t = _MISSING
+    if solB_t is _MISSING:
+        ctx.count("purity:second-solution-unavailable")
+    # ---- call plan
+    cap = 10**9
+    if label == "Hyperbolic":
+        cap = max(2, int(0.9 / tfdesc["b"]))  # the class wants b*(number of points - 1) < 1 for every array
+    sizes = [1, 1, 3, 7, 24, 60]
+    while sum(sizes) < PURITY_POINTS:
+        u = rng.random()
+        sizes.append(1 if u < 0.25 else (int(rng.integers(2, 12)) if u < 0.5 else (int(rng.integers(30, 200)) if u < 0.8 else int(rng.integers(300, 900)))))
+    sizes = [min(n, cap) for n in sizes]
+    while sum(sizes) < PURITY_POINTS:
+        sizes.append(cap)
+    sets = []
+    for i, n in enumerate(sizes):
+        pts = rng.uniform(a, b, n)
+        if i == 2:
+            pts[0], pts[-1] = a, b
+        if rng.random() < 0.5:
+            pts = np.sort(pts)
+        sets.append(pts)
+    tgt = {"A:transformed": (solA_t, prA, scale_t), "A:direct": (solA_d, prA, scale_d)}
+    if solB_t is not _MISSING:
+        tgt["B:transformed"] = (solB_t, prB, None)
+    first = {k: [] for k in tgt}
+    margin = 2.0  # the scales were computed on the 24 sample points of the case
+
+    def evaluate(name, pts, phase):
+        sol, prob, sc = tgt[name]
+        try:
+            y = _call(ctx, f"{esubj}:returned-callable:{phase}", lambda: np.array(sol(pts.copy()), dtype=float))
+        except _NoConvergence:
+            return None
+        if y is _MISSING:
+            return None
+        ok = ctx.check("output-shape", f"{subject}:{phase}", y.shape == (order, pts.size), detail={"shape": list(y.shape), "points": int(pts.size)})
+        if not ok:
+            return None
+        if sc is not None:
+            ex = prob.exact(pts)
+            for k in range(order):
+                err = float(np.max(np.abs(y[k] - ex[k])))
+                ctx.check(f"{kind}-callable-many-points-accuracy", f"{subject}:{name.split(':')[1]}", err / (tol * margin * sc[k]), ACC_FACTOR[kind], sig=f"order{order}:d{k}:{phase}",
+                          detail={"err": err, "scale": sc[k], "points": int(pts.size), "phase": phase, **info})
+        return y
+
+    total = 0
+    for i, pts in enumerate(sets):
+        first["A:transformed"].append(evaluate("A:transformed", pts, "first-evaluation"))
+        total += pts.size
+        if i % 3 == 0:
+            first["A:direct"].append(evaluate("A:direct", pts, "first-evaluation"))
+            if "B:transformed" in tgt:
+                first["B:transformed"].append(evaluate("B:transformed", sets[i][: min(pts.size, 40)], "first-evaluation"))
+    ctx.count("purity:points-to-one-callable", total)
+    ctx.count("purity:calls-to-one-callable", len(sets))
+    ctx.case_note("purity", {"points": total, "calls": len(sets)})
+    # ---- re-evaluation of the earliest sets (+ a sample of later ones), same arrays: bit-identical
+    again = list(range(6)) + sorted(int(v) for v in rng.choice(np.arange(6, len(sets)), size=min(6, len(sets) - 6), replace=False))
+    for name in tgt:
+        stride = 1 if name == "A:transformed" else 3
+        for i in again:
+            if i % stride:
+                continue
+            y1 = first[name][i // stride]
+            pts = sets[i] if name != "B:transformed" else sets[i][: min(sets[i].size, 40)]
+            if y1 is None:
+                continue
+            y2 = evaluate(name, pts, "re-evaluation")
+            if y2 is None:
+                continue
+            same = bool(np.array_equal(y1, y2))
+            dif = float(np.max(np.abs(y1 - y2))) if y1.shape == y2.shape else float("nan")
+            ctx.check(f"{kind}-callable-pure-same-points-same-values", f"{subject}:{name.split(':')[1]}", same, sig=f"order{order}:call{'<6' if i < 6 else '>=6'}:size{'1' if pts.size == 1 else ('<=24' if pts.size <= 24 else '>24')}",
+                      detail={"max_abs_difference": dif, "call": i, "points": int(pts.size), "solution": name, **info})
+    # ---- the union of the earliest sets, re-grouped in one reversed array: same values up to rounding
+    for name in ("A:transformed", "A:direct"):
+        stride = 1 if name == "A:transformed" else 3
+        idx = [i for i in range(6) if i % stride == 0 and first[name][i // stride] is not None]
+        if not idx:
+            continue
+        pts = np.concatenate([sets[i] for i in idx])[::-1].copy()
+        if pts.size > cap:
+            continue
+        y1 = np.concatenate([first[name][i // stride] for i in idx], axis=1)[:, ::-1]
+        y2 = evaluate(name, pts, "re-grouped")
+        if y2 is None:
+            continue
+        sc = tgt[name][2]
+        for k in range(order):
+            ctx.check(f"{kind}-callable-pure-regrouped-points", f"{subject}:{name.split(':')[1]}", float(np.max(np.abs(y1[k] - y2[k]))) / sc[k], 1e-9, sig=f"order{order}:d{k}", detail={"points": int(pts.size), **info})
+    ctx.hit("purity-protocol")
 
 
 def _bvp_spec(rng, order):
